@@ -222,6 +222,22 @@ CHECKS = {
         note="Likelihood built from exactly rounded operations (vectorised == pointwise bitwise); worker scheduling of "
              "real pools is exercised, not enumerated; Pool.map order preservation assumed.",
     ),
+    "C20": dict(
+        category="exploration",
+        technique="TLA+ spec Config.tla (option domains of both samplers, up-front validation transcribed as "
+                  "RejectedUpFront) enumerated by TLC; every single-option configuration (thorough: sampled pairs) run "
+                  "for real in a bounded subprocess; completed runs validated by TLC against the sampler trace specs",
+        text="TLC enumerates the configurations that differ from the default in one documented option value (default, "
+             "alternatives, one invalid value; 60+ options of both samplers) and predicts which are rejected up front; "
+             "each is executed on a 2- or 3-parameter Gaussian under the observers with a wall-clock bound and "
+             "classified: configuration error before the initial points are drawn and before any likelihood call / "
+             "completed (then the C01, C03, C05 clauses are checked by trace validation) / failure after sampling "
+             "started / no termination.",
+        design_ref="DESIGN.md 4 C20",
+        note="Termination is bounded by wall clock (150 s vs ~5 s nominal), proposal draws are not counted; gravitational-"
+             "wave options are not covered (lalsuite/bilby absent); known findings late_failure:* / no_termination:* "
+             "identified by the option value that triggers them (known_findings.json).",
+    ),
 }
 
 NOT_YET = {k: 'check not built yet (work in progress; see DESIGN.md 8 for the order of work)' for k in ['C01', 'C02', 'C03', 'C05', 'C09', 'C10', 'C11', 'C12', 'C13', 'C14', 'C15', 'C16', 'C17', 'C18', 'C19', 'C20']}
